@@ -1489,6 +1489,11 @@ class Interp:
                 if full[0] == 'upd' and full[2] == 'attr' and full != ft[1] and \
                         ft[2] == f.attr:
                     ft = intern(('attr', full, f.attr))
+                elif full[0] in ('upd', 'mut') and full != ft[1] and \
+                        ft[2] == f.attr and f.attr in MUTATORS:
+                    # a mutating method acts on the container with the items
+                    # stored so far (d['m'] = ...; d.pop('y') keeps 'm')
+                    ft = intern(('attr', full, f.attr))
         return self.apply(ft, pos, kws, frame, cond, e, env,
                           wb=(recv, pos_nodes, kw_nodes))
 
